@@ -65,7 +65,12 @@ func initReadChannel() {
 		"pop",
 		func(vm *Thread, args []value.Value) (value.Value, value.Value) {
 			self := args[0].AsReference().(value.ReadChannel)
-			return value.MakeResult2(self.PopCtx(vm.Aborter.Context())).ToValue(), value.Undefined
+			result, err := self.PopCtx(vm.Aborter.Context())
+			if value.IsExecutionAborted(err) {
+				// the result only carries `ClosedError`, an abort stops the thread
+				return value.Undefined, err
+			}
+			return value.MakeResult2(result, err).ToValue(), value.Undefined
 		},
 	)
 	Alias(c, "<<@", "pop")
